@@ -100,7 +100,7 @@ F('shift', TPL('shift') + r'ParseState& ps,\s*const std::string_view& sv,\s*size
   rules=[S(r'const auto& ftor = term_ftors\[([^;]*)\];', r'size_t ftor = vx_idx(\1, term_count);', name='R13:ftor'),
          Call(r'(?<![\w.])ftor', 'vx_term_value(ftor, {1}, {2})', name='R13:term-value')], between_ok=r'\s*')
 F('reduce', TPL('reduce') + r'Context&& ctx,\s*ParseState& ps,\s*size16_t rule_info_idx\)\s*const', 'void reduce(size16_t rule_info_idx)',
-  rules=RI + [S(r'value_variant_type\* start', 'vx_value* start', name='R13'), S(r'value_variant_type lvalue\(', 'vx_value lvalue = (', name='R13'),
+  rules=RI + [S(r'value_variant_type\* start', 'vx_value* start', name='R13'), S(r'value_variant_type lvalue\(', 'vx_value lvalue = (', min=0, name='R13'), S(r'value_variant_type\{\}', 'vx_value_default()', min=0, name='R13:default-constructed variant'),
               S(r'ps\.reductors\.invoke\(', 'vx_invoke(', name='R13:invoke'), S(r'write_rule_diag_str\(ps\.error_stream,\s*', 'write_rule_diag_str(', name='R10')],
   between_ok=r'\s*')
 F('rr_conflict', TPL('rr_conflict') + r'Context&& ctx,\s*ParseState& ps,\s*size16_t rule_idx\)\s*const', 'void rr_conflict(size16_t rule_idx)', between_ok=r'\s*')
@@ -155,6 +155,7 @@ int vx_thrown;
 #define VX_CAP 8
 ''' + SX.cvector_struct('cvec16', 'size16_t') + r'''
 typedef uint32_t vx_value;                 /* R13: a semantic value is a ghost identifier */
+static inline vx_value vx_value_default(void) { return 0; }   /* value_variant_type{}: no value (id 0 is never allocated) */
 ''' + SX.cvector_struct('cvecv', 'vx_value') + r'''
 struct vx_sv { const char* p; size_t n; };  /* R12: std::string_view */
 struct vx_opt { bool has; vx_value v; };    /* R13: std::optional<root_value_type> */
